@@ -40,11 +40,12 @@ def run_syntax(pid, tier):
     for kind, case, pr in problems:
         res.violation(parse.KINDS[kind] + ": " + json.dumps(pr["detail"])[:300], parse.payload(case, pr))
     res.coverage = {"states": st["distinct"] + pst["distinct"], "transitions": st["generated"] + pst["generated"], "traces_validated_against_impl": n_print + pcnt["prints"],
-                    "language_spec": {"module": "Parse.tla / MC_Parse.tla", "cfg": pst["cfg"], "tlc_wall_s": pst["wall_s"], **pcnt,
+                    "language_spec": {"module": "Parse.tla / MC_Parse.tla / MC_ParseGen.tla", "cfg": pst["cfg"], "tlc_wall_s": pst["wall_s"], **pcnt,
                                       "invariants": "RoundTrip (ParseToks(print(b)) = b for every base), Decides (total verdict)",
-                                      "rule": "every deletion, neighbour swap, replacement by and insertion of each alphabet token at every position of "
-                                              "every base module; verdict of the specification (abstract module / offending token) compared with "
-                                              "parser::parse_str on the printed text (line and column of the error)"},
+                                      "rule": "(a) every deletion, neighbour swap, replacement by and insertion of each alphabet token at every position of "
+                                              "every base module (MC_Parse); (b) every viable prefix of the language from the empty text up to the bound, "
+                                              "closed, and every token that ends viability (MC_ParseGen); verdict of the specification (abstract module / "
+                                              "offending token) compared with parser::parse_str on the printed text (line and column of the error)"},
                     "tlc": {k2: st[k2] for k2 in ("module", "cfg", "behaviours", "wall_s")}, "checker_cmd": st["cmd"],
                     "evaluations": n_print, "distinct_nontrivial": n_mod, "exhaustive": False,
                     "rule": "abstract modules over the full grammar enumerated by TLC from rotating pools (attribute shapes, types nested to depth 5, "
